@@ -3,8 +3,8 @@
    LabelJson.v (label sets), SeriesIndex.v (request histories), Dates.v (days and time zones). *)
 From Coq Require Import List ZArith Bool String Permutation.
 From Qryn Require Import model.GoQuote model.LabelJson model.Fingerprint model.Labels
-  model.SeriesIndex model.Dates model.CacheKey model.ProtoLabels
-  proofs.FingerprintProofs proofs.FingerprintInjProofs proofs.LabelsProofs proofs.JsonQuoteProofs proofs.ProtoLabelsProofs proofs.SeriesIndexProofs proofs.DatesProofs proofs.CacheKeyProofs.
+  model.SeriesIndex model.Dates model.CacheKey model.ProtoLabels model.SeriesDoc
+  proofs.FingerprintProofs proofs.FingerprintInjProofs proofs.LabelsProofs proofs.JsonQuoteProofs proofs.ProtoLabelsProofs proofs.SeriesIndexProofs proofs.DiscoverProofs proofs.DatesProofs proofs.CacheKeyProofs.
 Import ListNotations.
 Open Scope Z_scope.
 
@@ -195,6 +195,31 @@ Print Assumptions acked_sample_is_indexed_by_day.
 Theorem announcement_cache_is_covered : forall h, incl (cache (run init h)) (ts_rows (run init h)).
 Proof. exact cache_covered. Qed.
 Print Assumptions announcement_cache_is_covered.
+
+(* Where an inserted row comes from: every series row ever inserted was announced by a stream of the history that has
+   the row's fingerprint, an entry on the row's day and an entry of the row's type (no row for a series, day or type
+   nobody sent). *)
+Theorem inserted_rows_come_from_streams : forall h x,
+  In x (ts_rows (run init h)) -> exists s, In s (all_streams h) /\ from_stream s x.
+Proof. exact inserted_rows_have_origin. Qed.
+Print Assumptions inserted_rows_come_from_streams.
+
+(* END TO END (model/SeriesDoc.v: streams carry labels; fingerprint = fp_of (sanitized labels); a row's labels text is
+   encodeLabels of the labels of the stream that announced it - the last fact is checked on the code for every series
+   row of the history correspondence). In every history in which the fingerprint tells the occurring label sets apart
+   (the hypothesis of (a3)), an acknowledged sample of a stream with labels L has a successfully inserted series row of
+   its day and type, written for a stream whose labels are L up to order, and the labels text of that stream is JSON
+   decoding to exactly its labels: acknowledged data is discoverable by its labels. *)
+Theorem acked_sample_is_discoverable : forall (fp_of : list label -> Z) (h : list laction),
+  (forall s1 s2, In s1 (lstreams h) -> In s2 (lstreams h) ->
+     fp_of (ls_labels s1) = fp_of (ls_labels s2) -> Permutation (ls_labels s1) (ls_labels s2)) ->
+  forall s0 d t, In s0 (lstreams h) -> In (fp_of (ls_labels s0), d, t) (acked (lrun fp_of h)) ->
+  In (d, fp_of (ls_labels s0), t) (ts_rows (lrun fp_of h)) /\
+  exists s, In s (lstreams h) /\ from_stream (to_stream fp_of s) (d, fp_of (ls_labels s0), t) /\
+            Permutation (ls_labels s0) (ls_labels s) /\
+            forall isprint, json_decode (encode_labels isprint (ls_labels s)) = Some (ls_labels s).
+Proof. exact acked_sample_discoverable. Qed.
+Print Assumptions acked_sample_is_discoverable.
 
 (* What was wrong (run_old = the entry made at parse time): a failed series insert, or a body malformed
    after its first stream, followed by a retry left an acknowledged sample without series row. *)
